@@ -23,7 +23,7 @@ EXPLANATION = ('Lean theorems about the evaluator (a macro is a scoped call of g
                '%-resolution rules via the suffix-map theorems of C08; finalize rejects unbound/unevaluated macros) + '
                'differential run of definition/use histories, call logs and finalize under scopes.')
 
-MACROS = ['m1', 'm2', 'a', 'a/b', 'lr']   # 'a' and 'a/b': a macro named like a scope prefix of another
+MACROS = ['m1', 'm2', 'a', 'a/b', 'lr', 'include', 'import', 'from']   # the last three: statement keywords are macro names like any other;   # 'a' and 'a/b': a macro named like a scope prefix of another
 CONSTS = ['X', 'd.X', 'e.d.X', 'Y', 'q.Y', 'Z']
 
 
